@@ -137,7 +137,7 @@ def mapd(value, f):
         nd = tuple(f(x) for x in data)
     else:
         nd = f(data)
-    if lena.flow.functions._has_context(value):
+    if isinstance(value, tuple) and len(value) == 2 and isinstance(value[1], dict):
         return (nd, ctx)
     return nd
 
